@@ -1,4 +1,5 @@
 import Originium.Model.SysProofs
+import Originium.Model.TxnTie
 /-! # C06 — committed transactions are strictly serializable
 
 Witness order: a transaction that committed writes at timestamp `c` takes position `c`; a read-only
@@ -76,9 +77,35 @@ theorem C06_only_committed (all : List Oracle2.Commit) (r : Nat) (k : Oracle2.Ke
       · simp only [hc, ↓reduceIte] at h'; exact Or.inl h'
     · exact Or.inr ⟨c', by simp [hc'], h1, h2⟩
 
+
+/-- the validation the serial order rests on is the one the Go code performs: the conflict check and the read recording
+    of the model's commit / get steps are the translated `oracle.hasConflict` and `Txn.Get` (regenerated from /repo on
+    every run), for every committed list, read set and write buffer -/
+theorem C06_code_validation (recent : List Oracle2.Commit) (t : Oracle2.Txn) (k : List UInt8) (hk : k ≠ []) :
+    GenOracle.hasConflict t.reads t.readTs (recent.map OracleTie.ctOf) = Oracle2.hasConflict recent t ∧
+    (GenTxn.get (!t.update) false k t.readTs (TxnTie.pendOf t.writes) t.reads).2 =
+      (if t.update && !(t.writes.map (·.1)).contains k then t.reads ++ [k] else t.reads) ∧
+    (GenTxn.get (!t.update) false k t.readTs (TxnTie.pendOf t.writes) t.reads).1 =
+      (if t.update then
+        match Oracle2.lookupW k t.writes with
+        | some (some b) => GenTxn.R.direct b true
+        | some none => GenTxn.R.direct [] false
+        | none => GenTxn.R.search k t.readTs
+       else GenTxn.R.search k t.readTs) := by
+  refine ⟨OracleTie.hasConflict_tie recent t, TxnTie.get_records_iff t k hk t.reads, ?_⟩
+  rw [TxnTie.get_table t k hk]
+  cases t.update with
+  | false => rfl
+  | true =>
+    simp only [↓reduceIte]
+    cases Oracle2.lookupW k t.writes with
+    | none => rfl
+    | some v => cases v <;> rfl
+
 #print axioms C06_serial_reads
 #print axioms C06_real_time
 #print axioms C06_commit_after_snapshot
 #print axioms C06_validated
 #print axioms C06_only_committed
+#print axioms C06_code_validation
 end Props
